@@ -66,29 +66,32 @@ def purge():
 
 def clean_state_problems(fn, orig_code):
     """Clean-state predicate for one function (C05 invariant); returns a list of problems."""
-    from ptera.overlay import HandlerCollection
+    from pv.core import introspect as I
 
     out = []
     if fn.__code__ is not orig_code:
         out.append("function is not running its original code object")
-    st = getattr(fn, "__ptera_stack__", None)
-    if st is not None:
-        if st.instrument_count != 0:
-            out.append(f"instrument_count={st.instrument_count}")
-        bad = {str(k): v for k, v in st.captures.items() if v != 0}
-        if bad:
-            out.append(f"capture counters left: {bad}")
-    if HandlerCollection.current.get() is not None:
+    if I.count_of(fn) != 0:
+        out.append(f"instrument_count={I.count_of(fn)}")
+    bad = I.leftover_captures(fn)
+    if bad:
+        out.append(f"capture counters left: {bad}")
+    if I.current_collection() is not None:
         out.append("a handler collection is still installed")
     return out
 
 
 def reset_context():
     """Force the handler context variable back to its default (used between cases only)."""
-    from ptera.overlay import HandlerCollection
+    try:
+        from ptera.overlay import HandlerCollection
 
-    if HandlerCollection.current.get() is not None:
-        HandlerCollection.current.set(None)
-    from ptera import probe
+        if HandlerCollection.current.get() is not None:
+            HandlerCollection.current.set(None)
+    except Exception:
+        pass
+    from pv.core import introspect as I
 
-    probe.global_probes.clear()
+    g = I.global_probes()
+    if g is not None:
+        g.clear()
